@@ -842,11 +842,37 @@ theorem chooseAuthority_ok {a h : Option Bytes} {x : Bytes} (e : chooseAuthority
     · rename_i hab; cases e; exact Or.inl ⟨rfl, by intro y hy; cases hy; exact hab⟩
     · cases e
 
+/-- every value is the first one -/
+theorem allFirst_iff (l : List Bytes) : allFirst l = true ↔ ∀ v ∈ l, l.head? = some v := by
+  cases l with
+  | nil => simp [allFirst]
+  | cons a r =>
+    simp only [allFirst, List.all_eq_true, beq_iff_eq, List.head?_cons, Option.some.injEq, List.mem_cons,
+      forall_eq_or_imp, true_and]
+    constructor
+    · intro h v hv; exact (h v hv).symm
+    · intro h v hv; exact (h v hv).symm
+
+/-- the `Host` values `into_request_parts` looks at are the `host` fields of the section, in order -/
+theorem inv_hosts {H : Http} {fs : List FieldLine} {h : Header} (hi : Inv H fs h) :
+    hmGroup h.fields nHost = valuesOf nHost fs := by
+  rw [hi.group nHost, valuesOf_regular_of_not_pseudo nHost (by decide)]
+
+/-- needs `H3.Gen.Headers.hostEveryValue = true` (the D-12e fix: every `Host` value is looked at): the
+    proof evaluates the generated constant. -/
 theorem intoRequestParts_ok {H : Http} {h : Header} {r : RequestParts} (e : h.intoRequestParts H = .ok r) :
+    allFirst (hmGroup h.fields nHost) = true ∧
     ∃ auth m, chooseAuthority h.pseudo.authority (hmGet h.fields nHost) = .ok auth ∧ h.pseudo.method = some m ∧
       H.uriBuild h.pseudo.scheme auth h.pseudo.path = some r.uri ∧
       r.method = m ∧ r.protocol = h.pseudo.protocol ∧ r.headers = h.fields := by
+  have hv : H3.Gen.Headers.hostEveryValue = true := rfl
   unfold Header.intoRequestParts at e
+  rw [hv] at e
+  simp only [Bool.true_and] at e
+  split at e
+  · cases e
+  rename_i hall
+  refine ⟨by simpa using hall, ?_⟩
   split at e
   · cases e
   · cases e
